@@ -163,18 +163,28 @@ def esc2(ctx, c):
             continue
         g = None
         for x in ast.walk(f.node):
-            if isinstance(x, ast.Subscript) and isinstance(x.ctx, ast.Load) and isinstance(x.value, ast.Name) and not isinstance(x.slice, ast.Slice):
+            is_attr = isinstance(x, ast.Subscript) and isinstance(x.value, ast.Attribute) and isinstance(x.value.value, ast.Name) and x.value.value.id == "self"
+            if isinstance(x, ast.Subscript) and isinstance(x.ctx, ast.Load) and (isinstance(x.value, ast.Name) or is_attr) and not isinstance(x.slice, ast.Slice):
                 k = try_fold(x.slice)
                 if k not in (0, -1):
                     continue
-                name = x.value.id
-                if name in ("registers", "args", "values", "vals", "files"):
-                    pass
+                name = U(x.value)
                 n += 1
                 g = g or CFG(f.node)
                 guarded = _guarded(g, f, name, x)
+                alias = None
+                if is_attr:
+                    # self.attr = <parameter> in the same function: the parameter's guards count
+                    for a_ in ast.walk(f.node):
+                        if isinstance(a_, ast.Assign) and U(a_.targets[0]) == name and isinstance(a_.value, ast.Name) and a_.value.id in f.params:
+                            alias = a_.value.id
+                    if alias is None and not guarded:
+                        # an attribute set elsewhere: decided only when the setter is in view
+                        continue
+                    if not guarded and alias:
+                        guarded = _guarded(g, f, alias, x)
                 if not guarded:
-                    guarded = _callers_guard(cg, f, name)
+                    guarded = _callers_guard(cg, f, alias or name)
                 site = "%s:%s[%s]" % (f.q, name, k)
                 if guarded:
                     c.ok(site, "dominated by an emptiness check (%s)" % guarded, repo.loc(f, x))
